@@ -344,7 +344,7 @@ func (run *Run) Witness(emit func(lib.Finding)) int {
 
 // ---- race detector sub-step ----------------------------------------------------------------------
 
-var raceFrame = regexp.MustCompile(`github\.com/ohler55/ojg/([A-Za-z0-9_/]+)\.([A-Za-z0-9_().*]+)\(\)`)
+var raceFrame = regexp.MustCompile(`github\.com/ohler55/ojg/([A-Za-z0-9_/]+)\.([A-Za-z0-9_().*]+)\(`)
 
 // RaceStep builds this package's tests with -race against the tree under test in a scratch module and
 // runs them. Tests: TestRaceStress (the stress round, sen.Bytes excluded), TestRaceSenBytes (only the
@@ -437,12 +437,25 @@ func (run *Run) RaceStep(emit func(lib.Finding)) {
 		rep.Count("c08.race.tests", 1)
 		races := strings.Count(body, "WARNING: DATA RACE")
 		failed := strings.Contains(body, "--- FAIL: "+name)
-		if races == 0 && !failed {
+		fatal := fatalRe.FindStringSubmatch(body)
+		if races == 0 && !failed && fatal == nil {
 			continue
 		}
 		class := "race:" + name
 		what := ""
-		if races > 0 {
+		if fatal != nil && races == 0 {
+			class = "fatal:" + name + ":" + fatal[1]
+			i := strings.Index(body, "fatal error:")
+			blk := body[i:]
+			var frames []string
+			for _, m := range raceFrame.FindAllStringSubmatch(blk, 6) {
+				frames = append(frames, m[1]+"."+m[2])
+			}
+			if len(blk) > 1500 {
+				blk = blk[:1500]
+			}
+			what = fmt.Sprintf("Go runtime fatal error in %s: %s; first frames: %s\n%s", name, fatal[1], strings.Join(frames, " / "), blk)
+		} else if races > 0 {
 			i := strings.Index(body, "WARNING: DATA RACE")
 			blk := body[i:]
 			if j := strings.Index(blk, "=================="); j > 0 {
@@ -485,12 +498,11 @@ func (run *Run) RaceStep(emit func(lib.Finding)) {
 	}
 }
 
-// RunC08 is the property run.
-func (run *Run) RunC08() {
+// RunC08Child is the in-process part of the run: the witness schedules and the stress rounds. It runs
+// in a child process of the harness: a Go runtime fatal error ("concurrent map read and map write",
+// "all goroutines are asleep") cannot be recovered and would otherwise take the harness with it.
+func (run *Run) RunC08Child() {
 	rep := run.Rep
-	rep.Rule = "C08 (supporting evidence for the protocol proof): N goroutines run generated call lists (pooled package-level functions, shared jp.Expr / Script / options / struct types, " +
-		"private instances) at the same time; every result is compared with the same list run alone, every value the package-level functions returned is re-inspected afterwards; " +
-		"the two-goroutine schedule of the Lean witness is replayed per pooled API; the same scenarios run under the Go race detector"
 	emit := func(fd lib.Finding) { rep.Add(fd) }
 	n := run.Witness(emit)
 	rep.AddEval(int64(n), 4)
@@ -506,6 +518,74 @@ func (run *Run) RunC08() {
 	}
 	rep.Count("c08.stress.goroutines", int64(goroutines))
 	rep.Sample(map[string]any{"round": 0, "goroutine": 0, "first_calls": GenLists(run.Seed, 0, goroutines, 3, true)[0]})
+}
+
+var fatalRe = regexp.MustCompile(`(?m)^fatal error: (.*)$`)
+
+// RunC08 is the property run: the child with the stress, then the race detector sub-step.
+func (run *Run) RunC08(self, knownPath string) {
+	rep := run.Rep
+	rep.Rule = "C08 (supporting evidence for the protocol proof): N goroutines run generated call lists (pooled package-level functions, shared jp.Expr / Script / options / struct types, " +
+		"private instances) at the same time; every result is compared with the same list run alone, every value the package-level functions returned is re-inspected afterwards; " +
+		"the two-goroutine schedule of the Lean witness is replayed per pooled API; the same scenarios run under the Go race detector"
+	emit := func(fd lib.Finding) { rep.Add(fd) }
+	tmp := filepath.Join(run.Verif, ".build", fmt.Sprintf("c08_child_%d.json", os.Getpid()))
+	_ = os.Remove(tmp)
+	defer os.Remove(tmp)
+	cmd := exec.Command(self, "-prop", "C08", "-tier", run.Tier, "-seed", fmt.Sprint(run.Seed), "-known", knownPath, "-out", tmp, "-child")
+	cmd.Env = os.Environ()
+	outB, err := cmd.CombinedOutput()
+	var child struct {
+		Evaluations   int64            `json:"evaluations"`
+		Distinct      int64            `json:"distinct_nontrivial"`
+		Samples       []any            `json:"samples"`
+		Distribution  map[string]int64 `json:"distribution"`
+		Findings      []lib.Finding    `json:"findings"`
+		FindingsTotal map[string]int64 `json:"findings_total"`
+		Notes         []string         `json:"notes"`
+	}
+	data, rerr := os.ReadFile(tmp)
+	if err != nil || rerr != nil || json.Unmarshal(data, &child) != nil {
+		out := string(outB)
+		msg := "the stress process ended without a report"
+		if m := fatalRe.FindStringSubmatch(out); m != nil {
+			msg = "Go runtime fatal error: " + m[1]
+		}
+		var frames []string
+		for _, m := range raceFrame.FindAllStringSubmatch(out, 8) {
+			frames = append(frames, m[1]+"."+m[2])
+		}
+		class := "fatal:" + msg
+		if len(frames) > 0 {
+			class += ":" + frames[0]
+		}
+		if len(out) > 2500 {
+			out = out[:2500]
+		}
+		emit(lib.Finding{Kind: "violation", Class: class,
+			What:   fmt.Sprintf("%s while %d goroutines ran the generated call lists (%v); first frames: %s\n%s", msg, 16, err, strings.Join(frames, " / "), out),
+			Replay: map[string]any{"scenario": "stress-process", "seed": run.Seed, "tier": run.Tier, "cmd": "h_reuse -prop C08 -child -seed <seed> -tier <tier>"}})
+		rep.Count("c08.stress.process_died", 1)
+	} else {
+		rep.AddEval(child.Evaluations, child.Distinct)
+		for k, v := range child.Distribution {
+			rep.Count(k, v)
+		}
+		for _, sm := range child.Samples {
+			rep.Sample(sm)
+		}
+		listed := map[string]int64{}
+		for _, fd := range child.Findings {
+			rep.Add(fd)
+			listed[fd.Kind+":"+fd.Class]++
+		}
+		for k, v := range child.FindingsTotal {
+			if extra := v - listed[k]; extra > 0 {
+				rep.FindingsTotal[k] += extra
+			}
+		}
+		rep.Notes = append(rep.Notes, child.Notes...)
+	}
 	run.RaceStep(emit)
 }
 
